@@ -32,6 +32,7 @@ type TokenBucketFilter struct {
 	rate              int
 	maxBurst          int
 	minRefillDuration time.Duration
+	lastRefill        time.Time // used by the run goroutine only
 
 	wg   sync.WaitGroup
 	done chan struct{}
@@ -119,7 +120,7 @@ func (t *TokenBucketFilter) run() {
 	defer t.wg.Done()
 
 	t.refillTokens(t.minRefillDuration)
-	lastRefill := time.Now()
+	t.lastRefill = time.Now()
 
 	for {
 		select {
@@ -128,12 +129,6 @@ func (t *TokenBucketFilter) run() {
 
 			return
 		case chunk := <-t.c:
-			// Refill for exactly the time that has passed since the last
-			// refill. Crediting a longer period in one go would hand out
-			// tokens for time during which the bucket was already full.
-			now := time.Now()
-			t.refillTokens(now.Sub(lastRefill))
-			lastRefill = now
 			t.queue.push(chunk)
 			t.drainQueue()
 		}
@@ -162,6 +157,15 @@ func (t *TokenBucketFilter) drainQueue() {
 		if next == nil {
 			break
 		}
+		// Refill for exactly the time that has passed since the last refill,
+		// before every decision. Crediting a longer period in one go would
+		// hand out tokens for time during which the bucket was already full,
+		// and handing a chunk to the next NIC may take time: tokens left over
+		// from before such a pause must not be spent on top of the refill for
+		// the pause. Only the run goroutine gets here.
+		now := time.Now()
+		t.refillTokens(now.Sub(t.lastRefill))
+		t.lastRefill = now
 		tokens := float64(len(next.UserData()))
 		if t.currentTokensInBucket < tokens {
 			t.log.Tracef("currentTokensInBucket=%v, tokens=%v, stop drain", t.currentTokensInBucket, tokens)
